@@ -332,6 +332,25 @@ def exX : Ix → Signal ℚ
   | _ => ⟨[], []⟩
 
 example : (checkLawsT exTcs exX 3).isOk = true := by decide +kernel
+
+/-- the example circuit and its response satisfy the formal time-domain laws (all nodes, all components) … -/
+theorem ex_lawsTFormal : LawsTFormal exTcs exX := by
+  constructor
+  · intro k hk
+    match k, hk with
+    | 0, h => exact absurd rfl h
+    | 1, _ => decide +kernel
+    | 2, _ => decide +kernel
+    | (k + 3), _ => simp [kclT, exTcs, outflowT, twoTermT, subP, smul, FormalZero, nf, normalForm]
+  · intro c hc p hp
+    simp only [exTcs, List.mem_cons, List.not_mem_nil, or_false] at hc
+    rcases hc with rfl | rfl | rfl
+    · simp only [lawsT, List.mem_singleton] at hp; subst hp; decide +kernel
+    · simp [lawsT] at hp
+    · simp [lawsT] at hp
+
+/-- … hence `LawsT`, and (by `laws_s_of_laws_t`) its transforms satisfy the ivp s-domain laws at every regular point -/
+example : LawsT (fun _ : ℚ => (1 : ℚ)) exTcs exX := formal_lawsT _ _ _ ex_lawsTFormal
 example : RestWhereUnspecified exTcs exX := by
   intro c hc
   simp only [exTcs, List.mem_cons, List.not_mem_nil, or_false] at hc
